@@ -1315,17 +1315,22 @@ Definition covered (c : cbody) : Prop :=
   | E2E _ _ => True
   | Abandon inners _ _ => Forall canonical_inner inners
   | StalledWrites inners _ _ => Forall (fun i => len_of (data_body i) <= max_msg) inners
+  | WireEnc m got back =>       (* the clause is on the implementation's bytes alone *)
+      wire_back_ok m back = true /\ match got with Some b => spec_reads m b = true | None => True end
+  | WireDec _ _ _ => True
   end.
 
 Theorem agreeing_case_no_violation c : covered c -> agrees c = true -> violation c = [].
 Proof.
-  destruct c as [honest wops wseen stream pat rops rseen hdrs typed_ok|n whead wlen racc rlen req|e o|inners reqs got|inners calls wire];
+  destruct c as [honest wops wseen stream pat rops rseen hdrs typed_ok|n whead wlen racc rlen req|e o|inners reqs got|inners calls wire|m got back|k input got];
     cbn [covered]; intros Hc Ha.
   - subst honest. apply checker_accepts_agreeing_dishonest. exact Ha.
   - subst req. apply checker_accepts_agreeing_big. exact Ha.
   - apply checker_accepts_agreeing_e2e. exact Ha.
   - apply checker_accepts_agreeing_abandon; assumption.
   - apply checker_accepts_agreeing_stalled; assumption.
+  - cbn [violation]. destruct Hc as [Hb Hs]. destruct got; [rewrite Hb, Hs|]; reflexivity.
+  - reflexivity.
 Qed.
 
 Theorem violations_silent_on_agreeing cs :
